@@ -404,3 +404,170 @@ def r_dyad_own(ctx: RuleCtx, col: Collector):
                     else:
                         col.ok(where_of(f), f.rel, line_of(st.stmt), stmt_key(st.stmt), "assigned list is fresh")
     dedupe(col)
+
+
+# ------------------------------------------------------------------------------------------------ linearity
+@rule("R-LINEAR", floor=20, witness_min=1)
+def r_linear(ctx: RuleCtx, col: Collector):
+    """Degree analysis of every `_sensitivity` result in the seeds (lattice zero / linear / constant / proved
+    non-linear / unknown, interprocedural through self-method helpers): a result that is proved affine (a seed-
+    independent term added to or stored into a seed-linear buffer), constant, or non-linear is reported; everything
+    the analysis cannot type is 'unknown' and silent."""
+    from ..linear import Linearity, Val, L as LIN, N as NON, C as CON, Z as ZER, U as UNK_
+    m = ctx.model
+    for c, f in module_methods(ctx, "_sensitivity"):
+        seeds = {p: Val(LIN) for p in f.pos_params()}
+        if f.vararg():
+            seeds[f.vararg()] = Val(LIN)
+        lin = Linearity(m, ctx.flow.cfg, f, c, seeds)
+        bad = False
+        kinds = []
+        for ret, vals in lin.returns:
+            for i, v in enumerate(vals):
+                kinds.append(v.k)
+                if v.k == NON:
+                    bad = True
+                    node, why = v.why if v.why else (ret, "non-linear")
+                    col.bad(where_of(f), f.rel, line_of(node), f"{c.name}: result {i} of {f.short}",
+                            f"the sensitivity returned for input {i} is not a linear function of the output seeds: {why} "
+                            f"(seeding a*w1+b*w2 no longer gives a*g1+b*g2)")
+                elif v.k == CON:
+                    bad = True
+                    col.bad(where_of(f), f.rel, line_of(ret), f"{c.name}: result {i} of {f.short}",
+                            f"the sensitivity returned for input {i} ('{stmt_key(ret)}') does not depend on the seeds at "
+                            f"all: a zero seed must give a zero contribution")
+        if not bad:
+            col.ok(where_of(f), f.rel, line_of(f.node), f"{c.name}: {f.short} is linear in the seeds",
+                   f"result classes {kinds}")
+    dedupe(col)
+
+
+# ------------------------------------------------------------------------------------- shared / global state
+@rule("R-SHARED-STATE", floor=2, witness_min=2)
+def r_shared_state(ctx: RuleCtx, col: Collector):
+    """Results must not depend on other instances or earlier constructions: (a) the object returned by a memoised
+    function (functools.lru_cache / cache) is shared by all callers and must never be mutated; (b) a class-level
+    mutable container (dict / list / set defined in the class body) must not be written by methods - it is shared by
+    every instance (e.g. a cache keyed too coarsely returns another instance's data)."""
+    m = ctx.model
+    # (a) memoised results: one obligation per function that calls a memoised function, plus every package function scanned
+    n_fun = 0
+    for f in _functions(m):
+        n_fun += 1
+        if not any(isinstance(n, ast.Call) for n in ast.walk(f.node)):
+            continue
+        uses_shared = False
+        for n in ast.walk(f.node):
+            if isinstance(n, ast.Call):
+                for g in m.resolve_call(f, n, concrete=f.cls):
+                    from ..flow import is_memoised
+                    if is_memoised(g):
+                        uses_shared = True
+        if not uses_shared:
+            continue
+        an = ctx.alias(f, f.cls, role_env=False)
+        bad = False
+        for s in an.sinks:
+            sh = [x for o in s.origins for x in chain(o) if x[0] == "shared"]
+            if sh:
+                bad = True
+                col.bad(where_of(f), f.rel, line_of(s.stmt), stmt_key(s.stmt),
+                        f"{describe_sink(s)} modifies {fmt_origin(sh[0])}: the same object is handed to every later caller "
+                        f"with equal arguments, so later constructions silently start from the modified value")
+        if not bad:
+            col.ok(where_of(f), f.rel, line_of(f.node), f"{f.short}: memoised results not mutated", "")
+    # (b) class-level mutable containers
+    for c in sorted(m.classes.values(), key=lambda k: k.qual):
+        for a, v in c.class_attrs.items():
+            mutable = isinstance(v, (ast.Dict, ast.List, ast.Set)) or (
+                isinstance(v, ast.Call) and isinstance(v.func, ast.Name) and v.func.id in ("dict", "list", "set", "defaultdict", "OrderedDict"))
+            if not mutable:
+                continue
+            writers = []
+            for k in [c] + [s for s in m.subclasses(c, strict=True, witness=True)]:
+                for defs in k.methods.values():
+                    for f in defs:
+                        selfn = m.self_name(f)
+                        recv = {f"{c.name}.{a}", f"{k.name}.{a}", f"cls.{a}", f"type(self).{a}"} | ({f"{selfn}.{a}"} if selfn else set())
+                        rebinds = any(isinstance(n, ast.Assign) and any(ast.unparse(t) == f"{selfn}.{a}" for t in n.targets)
+                                      for n in ast.walk(f.node)) if selfn else False
+                        for n in ast.walk(f.node):
+                            hit = None
+                            if isinstance(n, (ast.Assign, ast.AugAssign)):
+                                tg = n.targets if isinstance(n, ast.Assign) else [n.target]
+                                for t in tg:
+                                    if isinstance(t, ast.Subscript) and ast.unparse(t.value) in recv:
+                                        hit = n
+                            if isinstance(n, ast.Call) and isinstance(n.func, ast.Attribute) and n.func.attr in T.CONTAINER_MUTATORS \
+                                    and ast.unparse(n.func.value) in recv:
+                                hit = n
+                            if hit is not None and not rebinds:
+                                writers.append((f, hit))
+            construct = f"class attribute {c.name}.{a} (mutable container)"
+            if writers:
+                f, n = writers[0]
+                col.bad(c.name, f.rel, line_of(n), construct,
+                        f"{f.short} writes the class-level container {c.name}.{a} ('{stmt_key(n)}'): it is shared by all "
+                        f"instances, so what one instance stores is seen by every other (history- and instance-dependent results)")
+            else:
+                col.ok(c.name, c.module.rel, line_of(v), construct, "never written by a method (read-only table)")
+    # (c) module-level mutable containers written by functions of that module
+    for mod in m.modules.values():
+        for a, v in mod.assigns.items():
+            mutable = isinstance(v, (ast.Dict, ast.List, ast.Set)) or (
+                isinstance(v, ast.Call) and isinstance(v.func, ast.Name) and v.func.id in ("dict", "list", "set", "defaultdict"))
+            if not mutable or a == "__all__":
+                continue
+            writers = []
+            for f in _functions(m):
+                if f.module is not mod:
+                    continue
+                local = any(isinstance(n, ast.Assign) and any(isinstance(t, ast.Name) and t.id == a for t in n.targets)
+                            for n in ast.walk(f.node)) or a in f.pos_params()
+                if local:
+                    continue
+                for n in ast.walk(f.node):
+                    if isinstance(n, (ast.Assign, ast.AugAssign)):
+                        tg = n.targets if isinstance(n, ast.Assign) else [n.target]
+                        if any(isinstance(t, ast.Subscript) and isinstance(t.value, ast.Name) and t.value.id == a for t in tg):
+                            writers.append((f, n))
+                    if isinstance(n, ast.Call) and isinstance(n.func, ast.Attribute) and n.func.attr in T.CONTAINER_MUTATORS \
+                            and isinstance(n.func.value, ast.Name) and n.func.value.id == a:
+                        writers.append((f, n))
+            construct = f"module-level container {mod.name.split('.')[-1]}.{a}"
+            if writers:
+                f, n = writers[0]
+                col.bad(where_of(f), f.rel, line_of(n), construct,
+                        f"{f.short} writes the module-level container '{a}' ('{stmt_key(n)}'): process-wide state makes "
+                        f"results depend on what was constructed or evaluated before")
+            else:
+                col.ok(mod.name, mod.rel, line_of(v), construct, "never written by a function")
+    col.ok("package", "pymoto", 0, "functions scanned for memoised callees", f"{n_fun} functions")
+
+
+@rule("R-DOMAIN-PURE", floor=10)
+def r_domain_pure(ctx: RuleCtx, col: Collector):
+    """The domain definition is construction-time configuration shared by many modules: no method other than __init__
+    assigns or mutates its attributes (a writer that scales the element size in place changes every later assembly and
+    file)."""
+    m = ctx.model
+    dd = m.public_class("DomainDefinition")
+    for name, defs in sorted(dd.methods.items()):
+        for f in defs:
+            if name == "__init__" or m.self_name(f) is None:
+                continue
+            an = ctx.alias(f, dd, role_env=False)
+            bad = False
+            for st in an.attr_stores:
+                bad = True
+                col.bad(where_of(f), f.rel, line_of(st.stmt), stmt_key(st.stmt),
+                        f"DomainDefinition.{name} assigns self.{st.attr}: the domain must stay as constructed")
+            for s in an.sinks:
+                at = [x for o in s.origins for x in chain(o) if x[0] == "attr"]
+                if at:
+                    bad = True
+                    col.bad(where_of(f), f.rel, line_of(s.stmt), stmt_key(s.stmt),
+                            f"{describe_sink(s)} mutates the domain's own self.{at[0][1]} inside DomainDefinition.{name}")
+            if not bad:
+                col.ok(where_of(f), f.rel, line_of(f.node), f"DomainDefinition.{name}: read-only on the domain", f"{an.n_sink_sites} mutation sites examined")
+    dedupe(col)
